@@ -35,7 +35,12 @@ def floor(tier):
 
 def cases(tier, rng):
     n = 128 if tier == "quick" else 6000
-    out = []
+    import json
+    import pathlib
+
+    # anchors: witnesses of earlier findings that random sampling reaches too rarely (F-23: a massive kernel whose partonic
+    # threshold falls inside one integration sub-interval in the unlucky way)
+    out = json.loads((pathlib.Path(__file__).parent / "c01_anchors.json").read_text())
     for i in range(n):
         ptos = (0, 1, 1, 2, 2, 3) if tier == "thorough" else (0, 1, 1, 2, 3)
         cfg = cards.rand_config(rng, ptos=ptos, sv=(i % 5 == 0))
@@ -78,6 +83,7 @@ def physics_point(fam, proc, x, Q2, m2s):
 def run_case(case):
     yad = run.yad()
     from yadism import coefficient_functions as cf
+    from yadism.esf import conv
 
     th = cards.theory(**case["theory"])
     g = case["grid"]
@@ -122,6 +128,10 @@ def run_case(case):
         exp, scale = {}, {}
         span_exp, span_scale = {}, {}
         fams = set()
+        kernel_level = 0
+        lnn_ = np.log(np.array(nodes))
+        above_ = [b - a for a, b in zip(lnn_[:-1], lnn_[1:]) if np.exp(b) >= p["x"]]
+        steep = 1.0 / min(above_) if above_ else 1.0
         for k in elems:
             fam, proc = family_of(k.coeff)
             fams.add(fam)
@@ -156,6 +166,21 @@ def run_case(case):
                     vec[j], svec[j] = xi * v, xi * s
                 exp[o] = exp.get(o, 0) + np.outer(partons, vec)
                 scale[o] = scale.get(o, 0) + np.outer(np.abs(partons), svec)
+                if fam == "heavy" and o >= 1 and kernel_level < 6:
+                    # kernel-level replay for the threshold-limited massive kernels: the code's own convolve_vector on this very RSL,
+                    # judged on the kernel's own scale (inside an entry a small heavy-quark kernel hides behind the light ones:
+                    # this is how F-23, 8e-4 of the top-quark gluon kernel, was only 2e-6 of the entry)
+                    kernel_level += 1
+                    cv_, ce_ = conv.convolve_vector(rsl, interp, xi)
+                    kt = RTOL[o] * max(1.0, steep / 5.0) * float(np.max(svec)) + 5.0 * xi * np.abs(ce_) + 1e-300
+                    km = float(np.max(np.abs(xi * cv_ - vec) / kt))
+                    compared += len(vec)
+                    classes.add("kernel-level")
+                    if km > 1:
+                        jb = int(np.argmax(np.abs(xi * cv_ - vec) / kt))
+                        viol.append(dict(sig=f"kernel|o{o}|{fam}|{proc}|{type(k.coeff).__name__}", what=f"{name}: convolve_vector of {fam}.{type(k.coeff).__name__} order {o} at xi={xi:.6g} (Q2={p['Q2']:.5g}) gives {xi*cv_[jb]:.12g} for basis function {jb}, independent quadrature {vec[jb]:.12g} (|diff|/kernel scale {abs(xi*cv_[jb]-vec[jb])/max(float(np.max(svec)),1e-300):.3g}, reported error {xi*ce_[jb]:.2g})"))
+                    else:
+                        margin = max(margin, km)
                 v, s, _ = quad.conv(rsl, xi, lambda u: fker(u) if u <= 1.0 else 0.0, extra_z=extra_z)
                 # abs scale for the span oracle: sum over partons of |w| * |conv|-like size, use s with |f| bound
                 probes["oracle_integrals"] += 1
